@@ -348,6 +348,7 @@ func TestOptions(t *testing.T) {
 
 // The witness found by reading (D6) and a few fixed orderings.
 func TestOptionTable(t *testing.T) {
+	harness.OnlyFirstShard(t)
 	grad := ColorSpec{Model: "RGBA", V: [4]uint16{0x02, 0x4a, 0x8a, 0x00}}
 	red := ColorSpec{Model: "NRGBA", V: [4]uint16{0xff, 0, 0, 0x80}}
 	pal := ops.DefaultPalette()
